@@ -707,6 +707,15 @@ func (e *SpecEnv) evalCall(n *ast.CallExpr) Val {
 			specFail("sameArray: two slices expected")
 		}
 		return Val{t: b.Eq(w.sbase(x.t), w.sbase(y.t)), typ: boolT}
+	case "apart":
+		// apart(p, s): the object p points to is not a view laid over the backing array of the byte slice s
+		// (Go's type system guarantees it for every pointer that does not come from an unsafe cast)
+		argn(2)
+		x, y := e.eval(n.Args[0]), e.eval(n.Args[1])
+		if x.t == nil || y.t == nil || x.t.sort != SLoc || y.t.sort != SSlice {
+			specFail("apart(pointer, slice) expected")
+		}
+		return Val{t: b.Not(b.And(b.mk("(_ is Elem)", SBool, x.t), b.Eq(b.App("ebase", SLoc, x.t), w.sbase(y.t)))), typ: boolT}
 	case "setEmpty":
 		argn(0)
 		return Val{t: b.ConstArray(SArray(SBV(64), SBool), b.False()), typ: pageSetType}
